@@ -291,13 +291,13 @@ def run(tier="quick", seed=0, only=None):
                 GK.RBFKernel() if bname == "rbf" else GK.MaternKernel(nu=1.5),
                 [torch.linspace(0, 1, 4, dtype=D), torch.linspace(0, 2, 3, dtype=D)][:d]), grid_inputs, batch=False)
 
-        # deterministic scan (independent of the seed): kernels with a kink at distance 0 on inputs with one duplicated row, through the generic
+        # deterministic scan (independent of the seed): kernels with a kink at distance 0 on fixed inputs with a duplicated row and rows 1e-9 / 1e-6 away from another row, through the custom Function and the generic
         # autograd branch (x.requires_grad): the diagonal goes through sqrt(squared distance from the quadratic expansion)
         xfix = torch.tensor([[0.37, 0.81, 0.52], [0.93, 0.15, 0.64], [0.08, 0.49, 0.77], [0.61, 0.33, 0.21]], dtype=D)
-        xfix = torch.cat([xfix, xfix[1:2]], -2)
+        xfix = torch.cat([xfix, xfix[0:1], xfix[1:2] + 1e-9 * torch.tensor([0.6, -0.48, 0.64], dtype=D), xfix[2:3] + 1e-6 * torch.tensor([0.0, 0.8, -0.6], dtype=D)], -2)
         for kn, kf in (("PiecewisePolynomialKernel/q0", lambda: GK.PiecewisePolynomialKernel(q=0)), ("MaternKernel/nu0.5", lambda: GK.MaternKernel(nu=0.5))):
             for call in ("k(x)", "k(x.requires_grad_())"):
-                key = f"gram_scan/{kn}/d3/duplicate_row/lengthscale_0.02..0.1/{call}"
+                key = f"gram_scan/{kn}/d3/coincident_rows/lengthscale_0.02..0.1/{call}"
                 worst, worst_ls = 0.0, None
 
                 def scan(kf=kf, call=call):
